@@ -377,6 +377,45 @@ func (bc *boundsCtx) term(v ssa.Value) lterm {
 			bc.z.addLE(me, lconst(int64(1)<<uint(b)-1))
 		}
 	}
+	// integer result of a module helper that only returns constants: bounded by them
+	{
+		var call *ssa.Call
+		idx := 0
+		if ex, ok := v.(*ssa.Extract); ok {
+			call, _ = ex.Tuple.(*ssa.Call)
+			idx = ex.Index
+		} else if cl, ok := v.(*ssa.Call); ok {
+			call = cl
+		}
+		if call != nil {
+			if g := calleeFn(call.Common()); g != nil && isModFn(g) && g.Blocks != nil && intBits(v.Type()) > 0 {
+				all, first := true, true
+				var lo, hi int64
+				eachInstr(g, func(_ *ssa.BasicBlock, _ int, in ssa.Instruction) {
+					ret, ok := in.(*ssa.Return)
+					if !ok || idx >= len(ret.Results) {
+						return
+					}
+					cv, isC := constInt(returnedValues(ret)[idx])
+					if !isC {
+						all = false
+						return
+					}
+					if first || cv < lo {
+						lo = cv
+					}
+					if first || cv > hi {
+						hi = cv
+					}
+					first = false
+				})
+				if all && !first {
+					bc.z.addLE(lconst(lo), me)
+					bc.z.addLE(me, lconst(hi))
+				}
+			}
+		}
+	}
 	// byte counts returned by reads never exceed the buffer they were given
 	if ex, ok := v.(*ssa.Extract); ok && ex.Index == 0 {
 		if call, ok := ex.Tuple.(*ssa.Call); ok {
